@@ -286,7 +286,7 @@ def run(ctx):
     ctx.add_tlc('OmegaSource', res, exhaustive=True)
     g = Graph(res.records['EDGE'], res.records.get('INIT'))
     ctx.sample({'edge': res.records['EDGE'][5]})
-    for rep in range(6 if thorough else 1):
+    for rep in range(12 if thorough else 1):
         ad = OmegaAdapter(ctx, ctx.seed + rep)
         w = OmegaWalker(ctx, g, ad, 'replay.OmegaSource.%d' % rep)
         npaths, complete = w.all_label_paths(4, budget=60000 if thorough else 12000)
